@@ -271,6 +271,8 @@ Definition vimpl_eval_checked (uniform : bool) hist start par dpar n (m : model)
    value, unit u reads hist(t_time - d_u)[start x + u] *)
 Definition vimpl_eval_perunit hist (start : nat -> nat) (par dpar : nat -> nat -> Qc) (n : nat) (m : model) md t y : list (list Qc) :=
   map (fun u => impl_eval hist (fun x => (start x + u)%nat) (fun p => par p u) (fun p => dpar p u) m md t y) (seq 0 n).
+(* parameter tables given as lists: row p = the values of parameter p over the units *)
+Definition tab (l : list (list Qc)) (p u : nat) : Qc := nth u (nth p l []) 0.
 (* guard of finding C10-F5, for parameter tables given as lists (row p = values of delay parameter p over the units) *)
 Definition delays_uniform (dps : list (list Qc)) : bool :=
   forallb (fun r => forallb (fun v => Qc_eqb v (nth 0 r 0)) r) dps.
